@@ -32,3 +32,7 @@ add('C15', 'exploration', 'exhaustive decision-table enumeration + property-base
     'The TLS negotiation table (96 cells) is enumerated completely and certificates with generated SAN multisets are presented through a scripted TLS socket; what the real endpoint does (SESS_INIT, established, SESS_TERM contact-failure, close, authn parameters) is compared with a policy function written from the property text.',
     'Real TLS handshakes and chain validation are out of scope (scripted socket, only Config.get_ssl_context() replaced); peers are reached by IP literal as tcpcl.agent.Agent.connect() does, so no DNS-ID reference exists.',
     'DESIGN.md section 3 C15')
+add('C18', 'exploration', 'model-based property testing with a marshalling model at the D-Bus boundary and a queue/idle reference model',
+    'Every signal and method return of generated TCPCL (two real endpoints) and UDPCL histories passes through a model of dbus-python marshalling against the declared signature; queue queries, pops and the idle indication are compared with a reference model computed from the recorded event history at the moment of each query.',
+    'vlib/dbusmodel.py is a model of the documented marshalling rules, not the library; bp/cla.py (needs a session bus) is not driven.',
+    'DESIGN.md section 3 C18')
